@@ -28,6 +28,9 @@ from harness.common import engine_run, coq_crosscheck
 
 TARGETS = ["theories/Props/C07.vo", "theories/Proofs/GenEq_Crop.vo"]
 GENEQ = {"theories/Proofs/GenEq_Crop.vo": "Crop"}
+# T1 units added after round 4 of the seeded changes
+TARGETS = TARGETS + ["theories/Proofs/GenEq_AssdKernel.vo"]
+GENEQ = dict(GENEQ, **{"theories/Proofs/GenEq_AssdKernel.vo": "AssdKernel"})
 ALLOWED_AXIOMS = [
     "Axioms",   # not an axiom: the header line "Axioms:" of Print Assumptions, which the driver's line parser reads as a name
                 # (`Axioms` is a reserved word of Coq, no constant can have that name); axiom_audit() below re-parses robustly
